@@ -263,6 +263,19 @@ pub fn rule(rng: &mut Rng, c: &Cfg) -> String {
         return s;
     }
     let mut wide = String::new();
+    if c.comments && rng.chance(1, 25) {
+        // the `"comment":` form of the wide-range selectors, often with the same text as the
+        // modifier's comment (a rule then carries the same comment twice)
+        let cm = comment(rng);
+        let rest = format!("{}{}", if rng.chance(1, 2) { weekday_selector(rng, c, true) + " " } else { String::new() }, time_selector(rng, c, simple));
+        let mut s = format!("{cm}:{rest}");
+        if rng.chance(1, 2) {
+            s.push_str(&format!(" open {cm}"));
+        } else {
+            modifier(rng, c, &mut s);
+        }
+        return s;
+    }
     if rng.chance(1, 6) {
         let n = if rng.chance(4, 5) { 1 } else { 2 };
         wide.push_str(&(0..n).map(|_| year_range(rng, c, simple)).collect::<Vec<_>>().join(","));
